@@ -636,5 +636,10 @@ func TestC02(t *testing.T) {
 			c02Part.EvalCase(s, c02Case{Set: set, Point: "5", Tx: []transform{{Kind: "swap_open", I: n - 1}, {Kind: "y_offset", I: n - 1, Seed: 7}, {Kind: "y_pair", I: n - 2, Seed: 9}, {Kind: "y_pair", I: n - 257, Seed: 11}}})
 		}
 	}
+	for i, d := range degenerateSets() {
+		if hx.Thorough() || hx.Sharded(i+9) {
+			c02Part.EvalCase(s, c02Case{Set: d, Point: "0", Tx: []transform{{Kind: "y_offset", I: 0, Seed: 3}, {Kind: "swap_open", I: 0}, {Kind: "drop_open", I: 0}, {Kind: "y_pair", I: 0, Seed: 5}, {Kind: "C_identity", I: 0}, {Kind: "D_identity"}}})
+		}
+	}
 	c02Part.Run(s, hx.PerShard(hx.Pick(240, 4800)))
 }
